@@ -24,7 +24,7 @@ type sqInput struct {
 }
 
 var sqClasses = []string{"distinct-real", "repeated-real", "clustered-real", "complex-pairs", "mixed", "zero-eig", "nonnormal", "nonnormal-complex",
-	"identity", "diagonal", "triangular", "hessenberg", "small-int", "graded", "zero-row-col", "partially-reduced", "block-diagonal", "rot2x2"}
+	"identity", "diagonal", "triangular", "hessenberg", "small-int", "graded", "zero-row-col", "partially-reduced", "block-diagonal", "hard-blocks", "rot2x2"}
 
 func distinctReals(n int, r *prng.Rand) []float64 {
 	// well separated, both signs, |lambda| in [0.3, 3]
@@ -295,6 +295,8 @@ func genSquare(class string, n int, r *prng.Rand) sqInput {
 		in.A = a
 	case "block-diagonal":
 		in.A = blockDiagonal(n, false, r)
+	case "hard-blocks":
+		in.A = hardBlocks(n, r)
 	case "rot2x2":
 		// directed 2x2 witnesses (n is ignored): rotation-like blocks with real and complex eigenvalues
 		w := [][]float64{{1, -2, -3, 1}, {0, 1, -1, 0}, {1, 2, 3, 4}, {2, 1, 1, 2}, {0, 1, 1, 0}, {1, 1, 0, 1}, {1, -2, 3, 1}, {0, 0, 0, 0}}
@@ -492,7 +494,7 @@ func genSym(class string, n int, spd bool, kmax float64, r *prng.Rand) *la.Mat {
 /* tall inputs (m >= n)
  * -------------------------------------------------------------------------- */
 
-var tallClasses = []string{"distinct", "repeated", "clustered", "rank-deficient", "bidiagonal", "bidiagonal-zero-diag", "diagonal", "identity", "zero-column", "zero-row", "small-int", "graded", "dense-random", "partially-reduced"}
+var tallClasses = []string{"distinct", "repeated", "clustered", "rank-deficient", "bidiagonal", "bidiagonal-zero-diag", "diagonal", "identity", "zero-column", "zero-row", "small-int", "graded", "dense-random", "partially-reduced", "multi-zero-diagonal"}
 
 func genTall(class string, m, n int, r *prng.Rand) *la.Mat {
 	sv := func() []float64 {
@@ -588,6 +590,55 @@ func genTall(class string, m, n int, r *prng.Rand) *la.Mat {
 			}
 		}
 		return a
+	case "multi-zero-diagonal":
+		// bidiagonal or upper triangular, SEVERAL exact zeros on the diagonal,
+		// exact zero rows / columns incl. trailing ones (rank-deficient by construction)
+		a := la.New(m, n)
+		tri := r.Chance(0.3)
+		for i := 0; i < n; i++ {
+			a.Set(i, i, float64(r.Range(1, 3))*[]float64{1, -1}[r.Intn(2)])
+			if i+1 < n {
+				a.Set(i, i+1, float64(r.Range(1, 2)))
+			}
+			if tri {
+				for j := i + 2; j < n; j++ {
+					a.Set(i, j, r.Uniform(-1, 1))
+				}
+			}
+		}
+		nz := 1 + r.Intn(3)
+		for k := 0; k < nz; k++ {
+			z := r.Intn(n)
+			a.Set(z, z, 0)
+		}
+		if r.Chance(0.5) { // trailing zero row / column
+			z := n - 1
+			for j := 0; j < n; j++ {
+				a.Set(z, j, 0)
+			}
+			if r.Bool() {
+				for i := 0; i < m; i++ {
+					a.Set(i, z, 0)
+				}
+			}
+		}
+		if r.Chance(0.4) { // a zero super-diagonal entry next to a zero diagonal (already deflated zero singular value)
+			z := r.Intn(n)
+			a.Set(z, z, 0)
+			if z+1 < n {
+				a.Set(z, z+1, 0)
+			}
+			if z > 0 && r.Bool() {
+				a.Set(z-1, z, 0)
+			}
+		}
+		if r.Chance(0.3) {
+			z := r.Intn(n)
+			for j := 0; j < n; j++ {
+				a.Set(z, j, 0)
+			}
+		}
+		return a
 	case "partially-reduced":
 		// a random subset of the columns is already reduced (zero below the
 		// diagonal) and a random subset of the rows (zero right of the
@@ -641,6 +692,72 @@ func blockDiagonal(n int, symmetric bool, r *prng.Rand) *la.Mat {
 	}
 	if symmetric {
 		a.Symmetrize()
+	}
+	return a
+}
+
+// hardBlocks: block-diagonal / block-upper-triangular matrix whose diagonal
+// blocks are drawn from a catalogue of small blocks that are hard for shifted
+// QR iterations: cyclic permutation matrices (size 2..5, both orientations),
+// companion matrices of x^k + 1, nilpotent Jordan blocks, rotation blocks,
+// exact zeros; placed at every position.
+func hardBlocks(n int, r *prng.Rand) *la.Mat {
+	a := la.New(n, n)
+	start := make([]int, n) // first index of the block a row belongs to
+	for k := 0; k < n; {
+		b := 1 + r.Intn(5)
+		if k+b > n {
+			b = n - k
+		}
+		kind := r.Intn(6)
+		switch {
+		case b == 1:
+			a.Set(k, k, []float64{0, 0, 1, -1, 2}[r.Intn(5)])
+		case kind == 0: // cyclic permutation
+			for i := 1; i < b; i++ {
+				a.Set(k+i, k+i-1, 1)
+			}
+			a.Set(k, k+b-1, 1)
+		case kind == 1: // companion of x^b + 1
+			for i := 1; i < b; i++ {
+				a.Set(k+i, k+i-1, 1)
+			}
+			a.Set(k, k+b-1, -1)
+		case kind == 2: // transposed cyclic permutation
+			for i := 1; i < b; i++ {
+				a.Set(k+i-1, k+i, 1)
+			}
+			a.Set(k+b-1, k, 1)
+		case kind == 3: // nilpotent Jordan block
+			for i := 1; i < b; i++ {
+				a.Set(k+i-1, k+i, 1)
+			}
+		case kind == 4: // rotation blocks
+			for i := 0; i+1 < b; i += 2 {
+				c, sn := 0.0, 1.0
+				if th := []float64{0.5, 1, 0, 2}[r.Intn(4)]; th != 0 {
+					c, sn = math.Cos(th), math.Sin(th)
+				}
+				a.Set(k+i, k+i, c)
+				a.Set(k+i, k+i+1, -sn)
+				a.Set(k+i+1, k+i, sn)
+				a.Set(k+i+1, k+i+1, c)
+			}
+		default: // exact zero block
+		}
+		for i := k; i < k+b; i++ {
+			start[i] = k
+		}
+		k += b
+	}
+	if r.Chance(0.4) { // block upper triangular: couple a block with later ones
+		for i := 0; i < n; i++ {
+			for j := i + 1; j < n; j++ {
+				if start[j] > i && start[j] != start[i] && r.Chance(0.3) {
+					a.Set(i, j, float64(r.Range(-2, 2)))
+				}
+			}
+		}
 	}
 	return a
 }
